@@ -42,6 +42,45 @@ inline uint64_t boundarySize(Rng& r, unsigned maxLog2 = 17) {
 	return p2 + r.below(3) - 1;
 }
 
+// Lexical normal form of a path inside the scratch root: relative, no "./", "//", "x/../".
+inline std::string normPath(std::string p) {
+	std::string root = disk::scratchRoot() + "/";
+	if (p.compare(0, root.size(), root) == 0) p = p.substr(root.size());
+	std::vector<std::string> parts;
+	size_t i = 0;
+	while (i <= p.size()) {
+		size_t j = p.find('/', i);
+		if (j == std::string::npos) j = p.size();
+		std::string part = p.substr(i, j - i);
+		if (part == "..") { if (!parts.empty()) parts.pop_back(); }
+		else if (!part.empty() && part != ".") parts.push_back(part);
+		i = j + 1;
+	}
+	std::string out;
+	for (auto& q : parts) out += (out.empty() ? "" : "/") + q;
+	return out;
+}
+
+// Paths the last armed library call(s) created, rewrote, renamed or removed that are neither the destination nor one of the
+// listed inputs: temporary / side files of the implementation. (The trace is reset by the caller before the call.)
+inline std::vector<std::string> sidePaths(const std::string& destination, const std::vector<std::string>& inputsOnDisk) {
+	std::vector<std::string> out;
+	std::string d = normPath(destination);
+	for (int i = 0; i < g_fault.touchedCount; ++i) {
+		std::string t = g_fault.touched[i];
+		if (!t.empty() && t[0] == '/' && t.compare(0, disk::scratchRoot().size(), disk::scratchRoot()) != 0) continue; // outside the simulated disk
+		std::string n = normPath(t);
+		if (n.empty() || n == d) continue;
+		bool isInput = false;
+		for (auto& in : inputsOnDisk) if (normPath(in) == n) isInput = true;
+		if (isInput) continue;
+		bool have = false;
+		for (auto& o : out) if (o == n) have = true;
+		if (!have) out.push_back(n);
+	}
+	return out;
+}
+
 // Common environment swarm for file-based families.
 inline void swarmEnv(Plan& p, Rng& r, bool readFaults, bool writeFaults, bool bigFiles = false) {
 	p.setenv("heap", r.below(256));
